@@ -51,7 +51,9 @@ CLAIMS = {
         'the trailing option every value followed by anything is accepted unless the continuation extends a number (maximal munch, '
         'corner shown by witness). Len() of a document is the length of the value without the blanks after it (C12_len, through the '
         'position of the last lexeme of the stream); its lexeme stream is properly nested and every span lies inside the text with '
-        'begin <= end (C12_nested, C12_spans). That literal lexemes cover exactly the literal and the rebuilt tree rest on the correspondence (model = implementation on '
+        'begin <= end (C12_nested, C12_spans); every literal lexeme spans exactly a JSON scalar and every key lexeme exactly a JSON string '
+        '(C12_literal_spans: the bytes consumed since the begin on the stack are a prefix of a scalar whose remainder is the residual '
+        'language of the state). That the rebuilt tree equals an independent decoder\'s rests on the correspondence (model = implementation on '
         'all strings of up to 5 tokens over a 28-symbol alphabet, documents, truncations, mutations) and on the independent decoder '
         '(python json, strict) that judges validity, the tree rebuilt from the lexeme stream, span containment and Len on every case.',
    note='Trusted: Coq kernel incl. vm_compute (byte-class table); hand-written model tied by correspondence; extraction, driver, harness '
